@@ -16,6 +16,40 @@ import (
 // Names is the default name alphabet.
 var Names = []string{"a", "ab", "b"} // "ab" has "a" as a string prefix: exposes prefix tests that forget the element boundary
 
+// Exotic holds valid but unusual element names: leading dots, adjacent dots inside a name (not the ".." element), a space,
+// a non-ASCII letter, a backslash (an ordinary character in an FS path), a leading dash, a trailing dot, upper case.
+var Exotic = []string{".a", "..a", "a..b", "...", "a b", "\u00e4", "a\\b", "-a", "a.", "A", ".ab"}
+
+// Alphabet draws the name alphabet of one case: mostly the default, otherwise {a, <exotic>, b}.
+func Alphabet(t *rapid.T) []string {
+	if rapid.IntRange(0, 9).Draw(t, "alphabet") < 6 {
+		return Names
+	}
+	return []string{"a", rapid.SampledFrom(Exotic).Draw(t, "exotic"), "b"}
+}
+
+// Elements returns the distinct path elements of the given paths plus the default names, sorted (the alphabet a recorded
+// history was drawn from, for closures in replay).
+func Elements(paths ...string) []string {
+	set := map[string]bool{}
+	for _, n := range Names {
+		set[n] = true
+	}
+	for _, p := range paths {
+		for _, e := range strings.Split(p, "/") {
+			if e != "" && e != "." {
+				set[e] = true
+			}
+		}
+	}
+	var out []string
+	for e := range set {
+		out = append(out, e)
+	}
+	sort.Strings(out)
+	return out
+}
+
 // Tree is the view of the reference state the generators draw against.
 type Tree struct {
 	Dirs  []string // existing directories (incl. ".")
